@@ -391,7 +391,7 @@ debug = false
                 e["spec"] = byc[e["tid"]]["spec"]
                 e["storage"] = re.sub(r"\s+", " ", e["storage"])
                 events.append(e)
-    tp = os.path.join(C.OUT, "work", key + ".ndjson")
+    tp = os.path.join(C.OUT, "work", "%s_%d.ndjson" % (key, os.getpid()))
     os.makedirs(os.path.dirname(tp), exist_ok=True)
     with open(tp, "w") as f:
         for e in events:
